@@ -17,7 +17,7 @@ Points ==
     {[fam |-> "param", kinds |-> ks, ninst |-> n, early |-> e] : ks \in KindSeqs, n \in 1..3, e \in BOOLEAN}
     \cup {[fam |-> "select", nalts |-> n, sel |-> s, early |-> e] : n \in 2..3, s \in 1..3, e \in BOOLEAN}
     \cup {[fam |-> "classfield", ascomp |-> c, early |-> e] : c \in BOOLEAN, e \in BOOLEAN}
-    \cup {[fam |-> "valref", where |-> w, early |-> e] : w \in {"upper", "lower", "single", "size", "component"}, e \in BOOLEAN}
+    \cup {[fam |-> "valref", where |-> w, early |-> e] : w \in {"upper", "lower", "single", "size", "component", "reftype_default"}, e \in BOOLEAN}
 NamedNumPoints == {[fam |-> "namednum", where |-> w, early |-> e] : w \in {"range", "single", "component"}, e \in BOOLEAN}
 Legal(p) == p.fam = "select" => p.sel <= p.nalts
 Init == x = 0
